@@ -113,7 +113,10 @@ type ContractSet struct {
 }
 
 func newContractSet() *ContractSet {
-	return &ContractSet{Funcs: map[string]*Contract{}, Deps: map[string]*Contract{}, Pures: map[string]*PureFunc{}, Ghosts: map[string]*GhostDecl{}, ChanLinks: map[string]string{}}
+	cs := &ContractSet{Funcs: map[string]*Contract{}, Deps: map[string]*Contract{}, Pures: map[string]*PureFunc{}, Ghosts: map[string]*GhostDecl{}, ChanLinks: map[string]string{}}
+	// built-in ghost field: a non-blocking select on ctx.Done() took the cancellation branch
+	cs.Ghosts["ctxCancelSeen"] = &GhostDecl{Kind: "field", Name: "ctxCancelSeen", Params: []Param{{"x", "int"}}, Ret: "bool"}
+	return cs
 }
 
 var reLabel = regexp.MustCompile(`^\[([A-Za-z0-9_.\-]+)\]\s*`)
